@@ -204,4 +204,103 @@ def wf (cfg : Config) (st : State) : Bool :=
   (-(2 ^ 31 : Int) ≤ cfg.challenge) && (cfg.challenge < 2 ^ 31) &&
   (dataPackets cfg st).all (fun d => d.length ≤ PACKET_SIZE)
 
+/-! ### field sections the client has no place for
+
+GameSpy 3 servers also send columns that are not part of the response (`kills_`, `time_on_`, `clan_`,
+`AIBot_`, `honor_t` …).  They travel exactly like the typed columns: marker bytes, the field id, the
+row of the first value, the values, a closing `00`, anywhere among the other sections of a packet.
+A reader of the format leaves them out; everything else of the reply is unchanged. -/
+
+/-- one field section of a column that is not part of the response -/
+structure Extra where
+  markers : Bytes
+  /-- the field id as sent, suffix (`_` / `_t`) included -/
+  name : Bytes
+  offset : Nat
+  values : List Bytes
+  deriving Repr
+
+/-- a section of a packet: a slice of a column of the response, or an extra section -/
+inductive Section where
+  | slice (sl : Slice)
+  | extra (e : Extra)
+  deriving Repr
+
+def encExtra (e : Extra) : Bytes :=
+  e.markers ++ cstr e.name ++ [UInt8.ofNat e.offset] ++ (e.values.map cstr).flatten ++ [0]
+
+def encSection (st : State) : Section → Bytes
+  | .slice sl => encSlice st sl
+  | .extra e => encExtra e
+
+def encSections (st : State) (ss : List Section) : Bytes := (ss.map (encSection st)).flatten
+
+/-- the slices among the sections (order kept) -/
+def slicesOf : List Section → List Slice
+  | [] => []
+  | .slice sl :: r => sl :: slicesOf r
+  | .extra _ :: r => slicesOf r
+
+/-- the extra sections among the sections -/
+def extrasOf : List Section → List Extra
+  | [] => []
+  | .slice _ :: r => extrasOf r
+  | .extra e :: r => e :: extrasOf r
+
+/-- how a reply with extra sections is put on the wire: `Config` with sections for slices -/
+structure ConfigX where
+  challenge : Int
+  layout : List (List Section)
+  unknown : List Nat
+  deriving Repr
+
+/-- the same reply without its extra sections -/
+def ConfigX.base (cfg : ConfigX) : Config := ⟨cfg.challenge, cfg.layout.map slicesOf, cfg.unknown⟩
+
+/-- a reply without extra sections, as a `ConfigX` -/
+def Config.toX (cfg : Config) : ConfigX := ⟨cfg.challenge, cfg.layout.map (·.map .slice), cfg.unknown⟩
+
+def payloadsX (cfg : ConfigX) (st : State) : List Bytes :=
+  match cfg.layout with
+  | [] => [encVars st.vars]
+  | first :: rest => (encVars st.vars ++ encSections st first) :: rest.map (encSections st)
+
+def dataPacketsX (cfg : ConfigX) (st : State) : List Bytes :=
+  let ps := payloadsX cfg st
+  packetsFrom cfg.unknown ps.length 0 ps
+
+def scriptX (cfg : ConfigX) (st : State) : List Bytes := handshakeReply cfg.challenge :: dataPacketsX cfg st
+
+def requestsX (cfg : ConfigX) : List Bytes := [handshakeRequest, dataRequest cfg.challenge]
+
+/-- the names of the typed columns (player table incl. `pid`, team table) -/
+def typedFields : List Bytes := playerFields ++ [asciiBytes "pid"]
+
+/-- what stands before the first `_` of a field id -/
+def firstSegment (name : Bytes) : Bytes := name.takeWhile (· != 0x5F)
+
+/-- an extra section that the format allows and that is not one of the typed columns: marker bytes
+below 3; the field id a non-empty text that does not start with a marker byte and whose first
+`_`-segment is none of the typed names (its suffix is free); the row offset a byte; every value a
+non-empty text (an empty one would close the section).  Nothing is asked of what the values say:
+`score`, `team_rocket`, `ping_` are values like any other. -/
+def wfExtra (e : Extra) : Bool :=
+  e.markers.all (· < 3) && okItem e.name && e.name.head?.all (fun b => !(b < 3)) &&
+  !typedFields.contains (firstSegment e.name) && e.offset < 256 && e.values.all okItem
+
+def wfSection (st : State) : Section → Bool
+  | .slice sl => wfSlice st sl
+  | .extra e => wfExtra e
+
+/-- the domain with extra sections: `wf` for the slices among the sections (each typed value still
+sent by some slice), every extra section allowed, and the packets as they are now (each later packet
+carries at least one section of either kind, each datagram fits the client's buffer) -/
+def wfX (cfg : ConfigX) (st : State) : Bool :=
+  wfVars st && st.players.all wfPlayer && st.teams.all wfTeam && st.players.length < 2 ^ 32 &&
+  (st.pids.all fun l => l.length == st.players.length && l.all okItem) &&
+  cfg.layout.flatten.all (wfSection st) && covered st (slicesOf cfg.layout.flatten) &&
+  !cfg.layout.isEmpty && (cfg.layout.drop 1).all (fun ss => !ss.isEmpty) && cfg.layout.length ≤ 128 &&
+  (-(2 ^ 31 : Int) ≤ cfg.challenge) && (cfg.challenge < 2 ^ 31) &&
+  (dataPacketsX cfg st).all (fun d => d.length ≤ PACKET_SIZE)
+
 end Gd.Gs3.Spec
